@@ -31,7 +31,7 @@
     Not covered (by design of the engine, movegen.go:198): a second enumeration of the SAME
     position key without ResetOnDemand. *)
 From Coq Require Import NArith ZArith List Bool Lia ZifyN ZifyBool Permutation.
-From FG Require Import MovegenImpl.
+From FG Require Import AttacksImpl MovegenImpl.
 Import ListNotations.
 Open Scope N_scope.
 
@@ -173,6 +173,29 @@ Proof.
   destruct (N.eqb_spec z x) as [->|Hz]; intros [H|H]; try congruence; try assumption.
   - now left.
   - right. now apply IH.
+Qed.
+
+Lemma F2_length {A B} (R : A -> B -> Prop) l1 l2 : Forall2 R l1 l2 -> length l1 = length l2.
+Proof. induction 1; cbn [length]; congruence. Qed.
+
+Lemma nodup_app (a b : list N) : NoDup a -> NoDup b -> (forall x, In x a -> In x b -> False) -> NoDup (a ++ b).
+Proof.
+  induction 1 as [|x a Hx Ha IH]; intros Hb Hd; cbn [app]; [exact Hb|].
+  constructor.
+  - intros H. apply in_app_or in H as [H|H]; [now apply Hx|]. apply (Hd x); [now left|exact H].
+  - apply IH; [exact Hb|]. intros y Hy1 Hy2. apply (Hd y); [now right|exact Hy2].
+Qed.
+
+Lemma nodup_app_l (a b : list N) : NoDup (a ++ b) -> NoDup a.
+Proof.
+  induction a as [|x a IH]; cbn [app]; intros H; [constructor|].
+  inversion H as [|? ? Hx Hn]; subst. constructor; [|now apply IH].
+  intros Hi. apply Hx. apply in_or_app. now left.
+Qed.
+Lemma nodup_app_r (a b : list N) : NoDup (a ++ b) -> NoDup b.
+Proof.
+  induction a as [|x a IH]; cbn [app]; intros H; [exact H|].
+  inversion H; subst. now apply IH.
 Qed.
 
 (** ** the stage plan *)
@@ -321,6 +344,8 @@ Inductive fill_result (e : bool) (st st' : odstate) (Ls : list (list N)) : Prop 
            (od_moves st' = [] -> OD_END <= od_stage st') ->
            fill_result e st st' Ls.
 
+Ltac split5 := split; [|split; [|split; [|split]]].
+
 Lemma fill_spec e : forall fuel st,
   (N.to_nat (OD_END - od_stage st) < fuel)%nat ->
   od_moves st = [] -> od_evt st = EVT ->
@@ -328,14 +353,17 @@ Lemma fill_spec e : forall fuel st,
              Forall2 (fun k L => L = stage_gen e k) (firstn (length Ls) (path (od_stage st))) Ls /\
              path (od_stage st) = firstn (length Ls) (path (od_stage st)) ++ path (od_stage (od_fill fuel env mode e st)) /\
              od_stage st <= od_stage (od_fill fuel env mode e st) /\
-             (od_moves (od_fill fuel env mode e st) <> [] -> od_stage st < od_stage (od_fill fuel env mode e st)).
+             (od_moves (od_fill fuel env mode e st) <> [] ->
+              od_stage st < od_stage (od_fill fuel env mode e st) /\ OD_PV < od_stage (od_fill fuel env mode e st) /\
+              Ls <> []).
 Proof.
   induction fuel as [|fuel IH]; intros st Hf Hm Hevt; [lia|].
   cbn [od_fill]. rewrite Hm.
   destruct (N.ltb_spec (od_stage st) OD_END) as [Hlt|Hge].
-  2:{ exists []. cbn [length firstn concat]. repeat split.
+  2:{ exists []. cbn [length firstn concat]. split5.
       - apply fr_gen; [unfold OD_PV, OD_END in *; lia|repeat split|rewrite Hm; reflexivity|intros _; exact Hge].
       - constructor.
+      - reflexivity.
       - lia.
       - intros H. now rewrite Hm in H. }
   destruct (N.leb_spec (od_stage st) OD_PV) as [Hpv|Hpv].
@@ -352,20 +380,21 @@ Proof.
       { intros k s. destruct k; cbn [od_fill]; [now left|]. destruct (od_moves s); [now right|now left]. }
       match goal with |- context [od_fill fuel env mode e ?s] =>
         destruct (Hfill fuel s) as [Ef|Ef]; [rewrite Ef|discriminate Ef] end.
-      exists [[]]. cbn [length firstn od_stage od_moves]. repeat split.
+      exists [[]]. cbn [length firstn od_stage od_moves]. split5.
       * now apply fr_pv.
       * constructor; [|constructor]. unfold stage_gen.
         unfold OD_PV, OD_1, OD_2, OD_3, OD_5, OD_6, OD_7, OD_8 in *.
         repeat (match goal with |- context [od_stage st =? ?k] => replace (od_stage st =? k) with false by lia end).
         reflexivity.
+      * reflexivity.
       * lia.
-      * intros _. lia.
+      * intros _. split; [lia|split; [lia|discriminate]].
     + (* no PV move *)
       unfold finish, set_stage. cbn [od_moves]. rewrite Hm.
       match goal with |- context [od_fill fuel env mode e ?s] => set (st1 := s) end.
       assert (Hs1 : od_stage st1 = next_stage (od_stage st)) by reflexivity.
       destruct (IH st1) as [Ls [HR [HF [HP [HS HS']]]]]; [rewrite Hs1; lia|reflexivity|exact Hevt|].
-      exists ([] :: Ls). cbn [length firstn]. rewrite Hs1 in *. repeat split.
+      exists ([] :: Ls). cbn [length firstn]. rewrite Hs1 in *. split5.
       * destruct HR as [H1 H2 H3 H4|H1 H2 H3 H4].
         { unfold OD_PV in *. lia. }
         apply fr_gen; [intros _; exact Esel| |exact H3|].
@@ -377,7 +406,7 @@ Proof.
         reflexivity.
       * cbn [app]. f_equal. exact HP.
       * lia.
-      * intros Hz. specialize (HS' Hz). lia.
+      * intros Hz. specialize (HS' Hz). split; [lia|split; [lia|discriminate]].
   - (* generating stages *)
     rewrite (fill_step_gen e st (conj Hpv Hlt) Hevt). rewrite (path_step _ Hlt).
     pose proof (next_stage_gt _ Hlt) as Hn. rewrite Hm. cbn [app].
@@ -387,7 +416,7 @@ Proof.
       match goal with |- context [od_fill fuel env mode e ?s] => set (st1 := s) end.
       assert (Hs1 : od_stage st1 = next_stage (od_stage st)) by reflexivity.
       destruct (IH st1) as [Ls [HR [HF [HP [HS HS']]]]]; [rewrite Hs1; lia|reflexivity|exact Hevt|].
-      exists ([] :: Ls). cbn [length firstn]. rewrite Hs1 in *. repeat split.
+      exists ([] :: Ls). cbn [length firstn]. rewrite Hs1 in *. split5.
       * destruct HR as [H1 H2 H3 H4|H1 H2 H3 H4].
         { unfold OD_PV in *. lia. }
         apply fr_gen; [intros; lia| |exact H3|].
@@ -396,7 +425,7 @@ Proof.
       * constructor; [now rewrite Eg|exact HF].
       * cbn [app]. f_equal. exact HP.
       * lia.
-      * intros Hz. specialize (HS' Hz). lia.
+      * intros Hz. specialize (HS' Hz). split; [lia|split; [lia|discriminate]].
     + (* a non-empty stage list: sorted, loop ends *)
       unfold finish. cbn [od_moves set_stage set_moves].
       match goal with |- context [od_fill fuel env mode e ?s] => set (st1 := s) end.
@@ -404,12 +433,14 @@ Proof.
       { subst st1. unfold set_moves. cbn [od_moves]. apply sort_nonempty. discriminate. }
       assert (Ef : od_fill fuel env mode e st1 = st1).
       { destruct fuel; cbn [od_fill]; [reflexivity|]. destruct (od_moves st1); [congruence|reflexivity]. }
-      rewrite Ef. exists [x :: g]. cbn [length firstn concat]. rewrite app_nil_r. repeat split.
+      rewrite Ef. exists [x :: g]. cbn [length firstn]. split5.
       * apply fr_gen; [intros; lia|repeat split| |intros Hz; congruence].
+        cbn [concat]. rewrite app_nil_r.
         subst st1. unfold set_moves. cbn [od_moves]. apply sort_perm.
       * constructor; [now rewrite Eg|constructor].
-      * subst st1. cbn [od_stage set_moves]. lia.
-      * intros _. subst st1. cbn [od_stage set_moves]. lia.
+      * reflexivity.
+      * subst st1. cbn [od_stage set_moves set_stage]. lia.
+      * intros _. subst st1. cbn [od_stage set_moves set_stage]. split; [lia|split; [lia|discriminate]].
 Qed.
 
 (** ** representation of the take index *)
@@ -490,13 +521,13 @@ Proof.
   unfold od_take1. rewrite A. cbn [bind].
   cbn [od_moves od_take set_take set_fresh].
   destruct ((length (od_moves st) <=? S (od_take st))%nat) eqn:E.
-  - eexists. split; [reflexivity|]. apply C in E. subst r.
+  - eexists. split; [reflexivity|]. assert (Hr : r = []) by (now apply C). subst r.
     unfold cur. cbn. repeat split; try reflexivity; auto. intros x [].
   - eexists. split; [reflexivity|]. unfold cur. cbn [od_moves od_take set_take set_fresh od_stage od_pv od_pv_pushed od_pv_fresh od_key od_evt].
     repeat split; try reflexivity; auto. right. apply Nat.leb_gt in E. exact E.
 Qed.
 
-Lemma J_of st st8 :
+Lemma J_of st8 :
   od_key st8 = e_key env -> od_evt st8 = EVT ->
   ((od_moves st8 = [] /\ od_take st8 = O) \/ (od_take st8 < length (od_moves st8))%nat) ->
   od_pv_fresh st8 = false -> OD_PV < od_stage st8 -> ~ In 0 (od_moves st8) -> J st8.
@@ -518,6 +549,44 @@ Lemma drain_end st st8 : od_next env mode ev st = Some (st8, 0) ->
   od_drain 1 env mode ev st = Some (st8, []).
 Proof. intros Hn. cbn [od_drain]. rewrite Hn. reflexivity. Qed.
 
+Lemma stage_lists_nz e l Ls : Forall2 (fun k L => L = stage_gen e k) l Ls -> ~ In 0 (concat Ls).
+Proof.
+  induction 1 as [|k L ks Ls' HL _ IH]; cbn [concat]; [intros []|].
+  intros H0. apply in_app_or in H0 as [H0|H0]; [|now apply IH]. subst L. unfold stage_gen in H0.
+  destruct (_ || _); [now apply gen_nz in H0|]. destruct (k =? OD_6); [|destruct H0].
+  destruct e; [destruct H0|now apply gen_nz in H0].
+Qed.
+
+(* GetNextMove on a non-empty list (no fill) *)
+Definition core_ne (st3 : odstate) : option (odstate * N) :=
+  if negb (od_pv_fresh st3) && od_pv_pushed st3 then
+    do m <- nth_error (od_moves st3) (od_take st3);
+    if m =? od_pv st3 then
+      let st4 := set_pushed (set_take st3 (S (od_take st3))) false in
+      if (length (od_moves st4) <=? od_take st4)%nat then
+        let st5 := od_fill OD_FILL_FUEL env mode false (set_moves (set_take st4 0) []) in
+        match od_moves st5 with
+        | [] => Some (st5, 0)
+        | _ => od_take1 st5
+        end
+      else od_take1 st4
+    else od_take1 st3
+  else od_take1 st3.
+
+Lemma core_nonempty st : od_moves st <> [] -> od_core env mode ev st = core_ne st.
+Proof.
+  intros H. unfold od_core, core_ne. destruct (od_moves st) eqn:E; [congruence|].
+  cbv iota. rewrite E. cbv iota. reflexivity.
+Qed.
+
+Lemma core_fill st : od_moves st = [] -> od_moves (od_fill OD_FILL_FUEL env mode ev st) <> [] ->
+  od_core env mode ev st = od_core env mode ev (od_fill OD_FILL_FUEL env mode ev st).
+Proof.
+  intros Hm Hne. unfold od_core at 1. rewrite Hm.
+  remember (od_fill OD_FILL_FUEL env mode ev st) as X eqn:DX.
+  unfold od_core. destruct (od_moves X) eqn:E; [congruence|]. cbv iota. rewrite E. reflexivity.
+Qed.
+
 (* the main induction: outer on the number of stages to come, inner on the rest of the
    current list *)
 Lemma P_all : forall n, forall c, forall st, J st ->
@@ -531,7 +600,7 @@ Proof.
     destruct (cur_nil_J st HJ Ecur) as [Hm Ht].
     destruct (fill_spec ev OD_FILL_FUEL st) as [Ls1 [HR [HF1 [HP [HS HS']]]]];
       [unfold OD_FILL_FUEL, OD_END; lia|exact Hm|exact (J_evt st HJ)|].
-    set (st3 := od_fill OD_FILL_FUEL env mode ev st) in *.
+    remember (od_fill OD_FILL_FUEL env mode ev st) as st3 eqn:Dst3.
     assert (Hnext : od_next env mode ev st = od_core env mode ev st) by (unfold od_next; now rewrite Hnorm).
     destruct HR as [Hpv Hsel Est3 ELs|Hnsel Hframe Hperm Hend].
     + (* the PV move was pushed: hand it out *)
@@ -541,12 +610,12 @@ Proof.
       assert (Hpvnz : od_pv st <> 0).
       { unfold pv_sel in Hsel. destruct (N.eqb_spec (od_pv st) 0); [discriminate|assumption]. }
       assert (Hstep : od_next env mode ev st = Some (st8, od_pv st)).
-      { rewrite Hnext. unfold od_core. rewrite Hm. fold st3. rewrite Est3.
+      { rewrite Hnext. unfold od_core. rewrite Hm. rewrite <- Dst3. rewrite Est3.
         cbn [od_moves od_pv_fresh od_pv_pushed negb andb]. unfold od_take1.
         cbn [od_moves od_take]. rewrite Ht. cbn [nth_error bind set_take set_fresh od_moves od_take length Nat.leb].
         unfold set_moves, set_take. cbn. reflexivity. }
       assert (HJ8 : J st8).
-      { apply (J_of st); cbn; try reflexivity.
+      { apply J_of; cbn; try reflexivity.
         - exact (J_key st HJ). - exact (J_evt st HJ). - now left. - unfold OD_PV in *. lia. - tauto. }
       assert (Hlen8 : (length (path (od_stage st8)) < n)%nat).
       { cbn [od_stage st8]. rewrite (path_step _ Hlt) in Hn. cbn [length] in Hn. lia. }
@@ -565,13 +634,13 @@ Proof.
     + destruct (od_moves st3) as [|y l3] eqn:Em3.
       * (* nothing left: MoveNone *)
         assert (Hstep : od_next env mode ev st = Some (set_pushed (set_take st3 0) false, 0)).
-        { rewrite Hnext. unfold od_core. rewrite Hm. fold st3. rewrite Em3. reflexivity. }
+        { rewrite Hnext. unfold od_core. rewrite Hm. rewrite <- Dst3. rewrite Em3. reflexivity. }
         exists Ls1, (set_pushed (set_take st3 0) false), []. split; [|split].
         -- now apply drain_end.
         -- assert (Hp3 : path (od_stage st3) = []).
            { apply path_end. exact (Hend eq_refl). }
            rewrite Hp3, app_nil_r in HP. rewrite HP. now apply (choice_of_gen ev); [right|].
-        -- apply Permutation_nil in Hperm. unfold spec_out. rewrite <- Hperm. rewrite Ecur. cbn [app].
+        -- apply Permutation_nil in Hperm. unfold spec_out. rewrite Hperm. rewrite Ecur. cbn [app].
            destruct (od_stage st <=? OD_PV) eqn:E1.
            { rewrite Hnsel by lia. reflexivity. }
            destruct (od_pv_fresh st) eqn:Ef.
@@ -579,33 +648,27 @@ Proof.
            destruct (od_pv_pushed st); reflexivity.
       * (* a new list: same as calling GetNextMove on the filled state *)
         destruct Hframe as (F1 & F2 & F3 & F4 & F5 & F6 & F7).
+        rewrite <- Em3 in Hperm, HS', Hend.
         assert (Hne3 : od_moves st3 <> []) by (rewrite Em3; discriminate).
         specialize (HS' Hne3).
         assert (Hfr : od_pv_fresh st = false).
         { destruct (od_pv_fresh st) eqn:Ef; [|reflexivity].
           destruct (J_fresh st HJ Ef) as (_ & Hmv & _). rewrite Hm in Hmv. discriminate. }
         assert (HJ3 : J st3).
-        { apply (J_of st); try congruence.
+        { apply J_of; try congruence.
           - rewrite <- F6. exact (J_key st HJ).
           - rewrite <- F7. exact (J_evt st HJ).
           - right. rewrite <- F1, Ht, Em3. cbn. lia.
           - unfold OD_PV in *. lia.
-          - intros H0. apply (Permutation_in _ Hperm) in H0. apply in_concat in H0 as [L [HL H0]].
-            apply Forall2_flip in HF1.
-            clear - HL H0 HF1 gen_nz. induction HF1 as [|L' k Ls' ks HL' _ IH]; [destruct HL|].
-            destruct HL as [<-|HL]; [|now apply IH]. subst L'. unfold stage_gen in H0.
-            destruct (_ || _); [now apply gen_nz in H0|]. destruct (k =? OD_6); [|destruct H0].
-            destruct ev; [destruct H0|now apply gen_nz in H0]. }
+          - intros H0. apply (Permutation_in _ Hperm) in H0. exact (stage_lists_nz _ _ _ HF1 H0). }
         assert (Hn3 : od_next env mode ev st = od_next env mode ev st3).
-        { rewrite Hnext. unfold od_next. rewrite (norm_id st3 HJ3). unfold od_core.
-          rewrite Hm. fold st3. rewrite Em3. reflexivity. }
+        { rewrite Hnext. unfold od_next. rewrite (norm_id st3 HJ3). rewrite Dst3.
+          apply core_fill; [exact Hm|now rewrite <- Dst3]. }
         assert (Hlen3 : (length (path (od_stage st3)) < n)%nat).
         { rewrite HP in Hn. rewrite app_length in Hn.
-          assert (length Ls1 <> O).
-          { intros Hz. destruct Ls1; [|discriminate]. cbn in HP. rewrite <- HP in HS'.
-            clear - HS'. lia. }
+          assert (length Ls1 <> O) by (destruct Ls1; [tauto|discriminate]).
           assert (Hl1 : length (firstn (length Ls1) (path (od_stage st))) = length Ls1).
-          { apply Forall2_length in HF1. exact HF1. }
+          { apply F2_length in HF1. exact HF1. }
           lia. }
         destruct (IHn _ Hlen3 _ st3 HJ3 (Nat.le_refl _) eq_refl) as (Ls3 & st' & out & Hd3 & HF3 & Ho3).
         exists (Ls1 ++ Ls3), st', out. split; [|split].
@@ -639,7 +702,7 @@ Proof.
     destruct (cur_cons st m r Ecur) as (Hnth & Hskip & Hlast).
     destruct (take1_spec st m r Ecur) as (st8 & Ht8 & Hc8 & G1 & G2 & G3 & G4 & G5 & G6 & G7 & G8).
     assert (HJ8 : J st8).
-    { apply (J_of st); try congruence.
+    { apply J_of; try congruence.
       - rewrite G5. exact (J_key st HJ). - rewrite G6. exact (J_evt st HJ).
       - intros H0. apply (J_nz st HJ). now apply G8. }
     assert (Hlen8 : length (cur st8) = length r) by now rewrite Hc8.
@@ -658,7 +721,7 @@ Proof.
         + destruct (J_fresh st HJ Ef) as (Hpp & Hmv & Htk & Hpvnz).
           unfold cur in Ecur. rewrite Hmv, Htk in Ecur. cbn in Ecur. injection Ecur as <- <-.
           rewrite Hpp in Ho8. exists out8. split; [reflexivity|exact Ho8].
-        + destruct (od_pv_pushed st) eqn:Ep.
+        + rewrite Ecur. destruct (od_pv_pushed st) eqn:Ep.
           * cbn [app remove1]. specialize (Hmpv eq_refl eq_refl).
             apply N.eqb_neq in Hmpv. rewrite Hmpv. now constructor.
           * cbn [app]. now constructor. }
@@ -672,18 +735,19 @@ Proof.
            assert (Hl : (length (od_moves st) <=? S (od_take st))%nat = true) by now apply Hlast.
            set (st4c := set_moves (set_take st4 0) []).
            destruct (fill_spec false OD_FILL_FUEL st4c) as [Ls1 [HR [HF1 [HP [HS HS']]]]];
-             [unfold OD_FILL_FUEL, OD_END; cbn; lia|reflexivity|exact (J_evt st HJ)|].
-           set (st5 := od_fill OD_FILL_FUEL env mode false st4c) in *.
+             [unfold OD_FILL_FUEL, OD_END; lia|reflexivity|exact (J_evt st HJ)|].
+           remember (od_fill OD_FILL_FUEL env mode false st4c) as st5 eqn:Dst5.
            assert (Hs4c : od_stage st4c = od_stage st) by reflexivity. rewrite Hs4c in *.
            destruct HR as [Hpv _ _ _|_ Hframe Hperm Hend]; [lia|].
            destruct Hframe as (F1 & F2 & F3 & F4 & F5 & F6 & F7).
            cbn [st4c st4 od_take od_pv od_pv_pushed od_pv_fresh od_killers od_key od_evt set_moves set_take set_pushed] in F1, F2, F3, F4, F5, F6, F7.
            assert (Hcore : od_core env mode ev st =
                            match od_moves st5 with [] => Some (st5, 0) | _ => od_take1 st5 end).
-           { unfold od_core. rewrite Hcore0. destruct (od_moves st) eqn:Emv; [congruence|]. rewrite <- Emv.
+           { rewrite (core_nonempty st Hne). unfold core_ne.
              rewrite Ef, Ep. cbn [negb andb]. rewrite Hnth. cbn [bind].
              replace (m =? od_pv st) with true by (symmetry; now apply N.eqb_eq).
-             fold st4. cbn [od_moves od_take st4 set_pushed set_take]. rewrite Hl. reflexivity. }
+             cbv zeta. fold st4. cbn [od_moves od_take st4 set_pushed set_take]. rewrite Hl.
+             fold st4. fold st4c. rewrite <- Dst5. reflexivity. }
            destruct (od_moves st5) as [|y l5] eqn:Em5.
            ++ (* no more moves *)
               exists Ls1, st5, []. split; [|split].
@@ -691,33 +755,29 @@ Proof.
               ** assert (Hp5 : path (od_stage st5) = []).
                  { apply path_end. exact (Hend eq_refl). }
                  rewrite Hp5, app_nil_r in HP. rewrite HP. now apply (choice_of_gen false); [left|].
-              ** apply Permutation_nil in Hperm. unfold spec_out. rewrite <- Hperm.
+              ** apply Permutation_nil in Hperm. unfold spec_out. rewrite Hperm.
                  replace (od_stage st <=? OD_PV) with false by lia. rewrite Ef, Ep, Ecur, Empv.
                  cbn [app remove1]. rewrite N.eqb_refl. reflexivity.
            ++ (* same as calling GetNextMove on the refilled state *)
+              rewrite <- Em5 in Hperm, HS', Hend.
               assert (Hne5 : od_moves st5 <> []) by (rewrite Em5; discriminate).
               specialize (HS' Hne5).
               assert (HJ5 : J st5).
-              { apply (J_of st); try congruence.
+              { apply J_of; try congruence.
                 - rewrite <- F6. exact (J_key st HJ).
                 - rewrite <- F7. exact (J_evt st HJ).
                 - right. rewrite <- F1, Em5. cbn. lia.
                 - lia.
-                - intros H0. apply (Permutation_in _ Hperm) in H0. apply in_concat in H0 as [L [HL H0]].
-                  apply Forall2_flip in HF1.
-                  clear - HL H0 HF1 gen_nz. induction HF1 as [|L' k Ls' ks HL' _ IH]; [destruct HL|].
-                  destruct HL as [<-|HL]; [|now apply IH]. subst L'. unfold stage_gen in H0.
-                  destruct (_ || _); [now apply gen_nz in H0|]. destruct (k =? OD_6); [|destruct H0].
-                  now apply gen_nz in H0. }
+                - intros H0. apply (Permutation_in _ Hperm) in H0. exact (stage_lists_nz _ _ _ HF1 H0). }
               assert (Hn5 : od_next env mode ev st = od_next env mode ev st5).
-              { rewrite Hnext, Hcore. unfold od_next. rewrite (norm_id st5 HJ5). unfold od_core.
-                rewrite Em5. rewrite <- F3, <- F4, Ef. cbn [negb andb]. reflexivity. }
+              { rewrite Hnext, Hcore. unfold od_next. rewrite (norm_id st5 HJ5).
+                rewrite (core_nonempty st5 Hne5). unfold core_ne.
+                rewrite Em5. rewrite <- F3. cbn [negb andb]. rewrite andb_false_r. reflexivity. }
               assert (Hlen5 : (length (path (od_stage st5)) < n)%nat).
               { rewrite HP in Hn. rewrite app_length in Hn.
-                assert (length Ls1 <> O).
-                { intros Hz. destruct Ls1; [|discriminate]. cbn in HP. rewrite <- HP in HS'. clear - HS'. lia. }
+                assert (length Ls1 <> O) by (destruct Ls1; [tauto|discriminate]).
                 assert (Hl1 : length (firstn (length Ls1) (path (od_stage st))) = length Ls1).
-                { apply Forall2_length in HF1. exact HF1. }
+                { apply F2_length in HF1. exact HF1. }
                 lia. }
               destruct (IHn _ Hlen5 _ st5 HJ5 (Nat.le_refl _) eq_refl) as (Ls5 & st' & out & Hd5 & HF5 & Ho5).
               exists (Ls1 ++ Ls5), st', out. split; [|split].
@@ -726,28 +786,28 @@ Proof.
               ** unfold spec_out in *. rewrite concat_app.
                  replace (od_stage st5 <=? OD_PV) with false in Ho5 by lia.
                  replace (od_stage st <=? OD_PV) with false by lia.
-                 rewrite <- F4, <- F3 in Ho5. rewrite Ef, Ep, Ecur, Empv. cbn [app remove1]. rewrite N.eqb_refl.
+                 rewrite <- F4, <- F3, Ef in Ho5. cbv iota in Ho5.
+                 rewrite Ef, Ep, Ecur, Empv. cbn [app remove1]. rewrite N.eqb_refl.
                  assert (Hc5 : cur st5 = od_moves st5) by (unfold cur; now rewrite <- F1).
                  rewrite Hc5 in Ho5. rewrite Ho5. apply Permutation_app_tail. exact Hperm.
         -- (* more moves in the list: continue with the next one *)
            assert (Hl : (length (od_moves st) <=? S (od_take st))%nat = false).
            { destruct ((length (od_moves st) <=? S (od_take st))%nat) eqn:E; [|reflexivity].
-             apply Hlast in E. discriminate. }
+             assert (Hr : m2 :: r2 = []) by (now apply Hlast). discriminate. }
            assert (Hcore : od_core env mode ev st = od_take1 st4).
-           { unfold od_core. rewrite Hcore0. destruct (od_moves st) eqn:Emv; [congruence|]. rewrite <- Emv.
+           { rewrite (core_nonempty st Hne). unfold core_ne.
              rewrite Ef, Ep. cbn [negb andb]. rewrite Hnth. cbn [bind].
              replace (m =? od_pv st) with true by (symmetry; now apply N.eqb_eq).
-             fold st4. cbn [od_moves od_take st4 set_pushed set_take]. rewrite Hl. reflexivity. }
+             cbv zeta. fold st4. cbn [od_moves od_take st4 set_pushed set_take]. rewrite Hl. reflexivity. }
            assert (HJ4 : J st4).
-           { apply (J_of st); cbn; try assumption.
+           { apply J_of; cbn; try assumption.
              - exact (J_key st HJ). - exact (J_evt st HJ).
              - right. apply Nat.leb_gt in Hl. exact Hl.
              - exact (J_nz st HJ). }
            assert (Hn4 : od_next env mode ev st = od_next env mode ev st4).
-           { rewrite Hnext, Hcore. unfold od_next. rewrite (norm_id st4 HJ4). unfold od_core.
-             cbn [od_moves st4 set_pushed set_take]. rewrite Hcore0.
-             destruct (od_moves st) eqn:Emv; [congruence|]. rewrite <- Emv.
-             cbn [od_pv_fresh od_pv_pushed set_pushed set_take]. rewrite andb_false_r. reflexivity. }
+           { rewrite Hnext, Hcore. unfold od_next. rewrite (norm_id st4 HJ4).
+             rewrite (core_nonempty st4 Hne). unfold core_ne.
+             cbn [od_pv_fresh od_pv_pushed st4 set_pushed set_take]. rewrite andb_false_r. reflexivity. }
            assert (Hc4 : cur st4 = m2 :: r2) by (unfold cur; cbn; exact Hskip).
            apply (P_same st st4 Hn4 eq_refl).
            ++ intros Ls out. unfold spec_out. cbn [od_stage od_pv_fresh od_pv_pushed od_pv st4 set_pushed set_take].
@@ -756,11 +816,11 @@ Proof.
            ++ apply (IHc (length (cur st4))); [rewrite Hc4; cbn in *; lia|exact HJ4|exact Hn|reflexivity].
       * (* not the PV move *)
         apply Plain; [|intros _ _; exact Empv].
-        rewrite Hnext. unfold od_core. rewrite Hcore0. destruct (od_moves st) eqn:Emv; [congruence|]. rewrite <- Emv.
+        rewrite Hnext. rewrite (core_nonempty st Hne). unfold core_ne.
         rewrite Ef, Ep. cbn [negb andb]. rewrite Hnth. cbn [bind].
         replace (m =? od_pv st) with false by (symmetry; now apply N.eqb_neq). exact Ht8.
     + apply Plain.
-      * rewrite Hnext. unfold od_core. rewrite Hcore0. destruct (od_moves st) eqn:Emv; [congruence|]. rewrite <- Emv.
+      * rewrite Hnext. rewrite (core_nonempty st Hne). unfold core_ne.
         rewrite Echk. exact Ht8.
       * intros Ef Ep. rewrite Ef, Ep in Echk. discriminate.
 Qed.
@@ -771,6 +831,16 @@ Definition od_start_ok (st : odstate) : Prop :=
   (od_stage st = OD_NEW /\ od_moves st = [] /\ od_take st = O /\
    od_pv_pushed st = false /\ od_pv_fresh st = false /\ od_evt st = 0).
 
+Lemma J_start s : od_key s = e_key env -> od_evt s = EVT -> od_moves s = [] -> od_take s = O ->
+  od_pv_fresh s = false -> od_pv_pushed s = false -> J s.
+Proof.
+  intros H1 H2 H3 H4 H5 H6. constructor; try assumption.
+  - now left.
+  - congruence.
+  - intros _. auto.
+  - rewrite H3. intros [].
+Qed.
+
 Lemma start_J st : od_start_ok st ->
   J (od_norm env ev st) /\ od_stage (od_norm env ev st) = OD_NEW /\ od_pv (od_norm env ev st) = od_pv st.
 Proof.
@@ -779,26 +849,16 @@ Proof.
   - destruct Hs as [Hs|(H1 & H2 & H3 & H4 & H5 & H6)]; [congruence|].
     rewrite H6. cbn [N.eqb]. rewrite andb_true_r.
     destruct ev eqn:Eev.
-    + repeat split; cbn; try assumption; try congruence.
-      * unfold EVT. now rewrite Eev.
-      * now left.
-      * intros. repeat split; assumption.
-      * rewrite H2. tauto.
-    + repeat split; try assumption; try congruence.
-      * unfold EVT. now rewrite Eev.
-      * now left.
-      * intros. repeat split; assumption.
-      * rewrite H2. tauto.
+    + split; [|split; [exact H1|reflexivity]].
+      apply J_start; cbn; try assumption; try congruence. unfold EVT. now rewrite Eev.
+    + split; [|split; [exact H1|reflexivity]].
+      apply J_start; try assumption; try congruence. unfold EVT. now rewrite Eev.
   - cbn [od_evt N.eqb]. rewrite andb_true_r.
     destruct ev eqn:Eev.
-    + repeat split; cbn; try reflexivity; try congruence.
-      * unfold EVT. now rewrite Eev.
-      * now left.
-      * tauto.
-    + repeat split; cbn; try reflexivity; try congruence.
-      * unfold EVT. now rewrite Eev.
-      * now left.
-      * tauto.
+    + split; [|split; reflexivity].
+      apply J_start; cbn; try reflexivity. unfold EVT. now rewrite Eev.
+    + split; [|split; reflexivity].
+      apply J_start; cbn; try reflexivity. unfold EVT. now rewrite Eev.
 Qed.
 
 Lemma norm_next st : od_start_ok st -> od_next env mode ev st = od_next env mode ev (od_norm env ev st).
@@ -885,14 +945,14 @@ Lemma mix_facts : forall l Ls, Forall2 (choice env true) l Ls ->
   (forall x, In x (concat (map (stage_gen env true true) l)) -> In x (concat Ls)).
 Proof.
   induction 1 as [|k L l Ls HL _ IH]; cbn [map concat]; intros Hnd.
-  - repeat split; auto. constructor.
-  - apply NoDup_app_remove_l in Hnd as Hnd2. destruct (IH Hnd2) as (I1 & I2 & I3).
+  - repeat split; auto; constructor.
+  - pose proof (nodup_app_r _ _ Hnd) as Hnd2. destruct (IH Hnd2) as (I1 & I2 & I3).
     assert (HLin : forall x, In x L -> In x (stage_gen env true false k)).
     { intros x Hx. destruct HL as [-> | ->]; [exact Hx|now apply ev_incl]. }
     assert (HLnd : NoDup L).
-    { destruct HL as [-> | ->]; [|apply ev_nodup]. now apply NoDup_app_remove_r in Hnd. }
+    { destruct HL as [-> | ->]; [|apply ev_nodup]. now apply nodup_app_l in Hnd. }
     repeat split.
-    + apply NoDup_app; [exact HLnd|exact I1|].
+    + apply nodup_app; [exact HLnd|exact I1|].
       intros x Hx1 Hx2. apply HLin in Hx1. apply I2 in Hx2.
       clear - Hnd Hx1 Hx2. induction (stage_gen env true false k) as [|y g IHg]; [destruct Hx1|].
       cbn [app] in Hnd. inversion Hnd as [|? ? Hy Hnd']; subst. destruct Hx1 as [->|Hx1].
